@@ -89,10 +89,11 @@ fn main() {
             }
         }
     }
-    // seeded: medium lines with a few widths, and long lines.  The library overflows in
-    // thickness_threshold = (2w)^2 * |delta|^2 (thick_points.rs:96) beyond w * |delta| ~ 23170 (that is
-    // C08's business), so the driver keeps w * |delta| <= 20000 and |coordinates| <= 700.
-    let (n_med, n_long) = if th { (15000, 6000) } else { (300, 40) };
+    // seeded: medium lines with a few widths, and long lines with |coordinates| <= 700 (bounds of the exact
+    // integer arithmetic of EGLine).  The library used to overflow in thickness_threshold = (2w)^2 * |delta|^2
+    // beyond w * |delta| ~ 23170 (D15b, repaired); half of the long lines now lie BEYOND that product so that a
+    // re-narrowing of the threshold arithmetic shows as a stroke that is too thin.
+    let (n_med, n_long) = if th { (15000, 8000) } else { (300, 90) };
     for _ in 0..n_med {
         let s = (rng.i32(-60, 60), rng.i32(-60, 60));
         let e = (s.0 + rng.i32(-48, 48), s.1 + rng.i32(-48, 48));
@@ -113,7 +114,11 @@ fn main() {
         };
         let d2 = (e.0 - s.0) as i64 * (e.0 - s.0) as i64 + (e.1 - s.1) as i64 * (e.1 - s.1) as i64;
         let w = rng.u32r(2, 40);
-        if (w as i64 * w as i64) * d2 > 20_000i64 * 20_000 {
+        let wl2 = (w as i64 * w as i64) * d2;
+        if wl2 > 60_000i64 * 60_000 {
+            continue;
+        }
+        if made % 2 == 1 && wl2 < 24_000i64 * 24_000 {
             continue;
         }
         made += 1;
